@@ -17,7 +17,7 @@ Decided:
  P9 one access-platform field feeds every share/unshare.  P10 the transports' queue_set write the three area addresses,
     each split into its own low/high words (C10.M2/C11.W3 traces).  P11 free-list relink rules (C03.E6).
  P12 a blocking driver loop returns Ok only after every request it shared was popped; in-flight bookkeeping is released only
-    after the pop (C20.Z8 / C20.Z7).
+    after the pop (C20.Z8 / C20.Z7).  P13 block completions present the lists of their submission (C14.K3/K4).
 Not decided: exactly once per buffer over a history (rests on the free-list invariant).
 """
 from .common import *
@@ -119,6 +119,12 @@ def run(F, R):
     _roles = _c5.classify_api(_c5.queue_api(F, M))
     z8_pcm_complete(F, R, M, _roles, rule='P12')
     z7_release_after_pop(F, RuleProxy(R, {'Z7': 'P12'}), M, _roles)
+    # P13: a buffer is unshared in the direction it was shared in: the block driver's completion calls present the same
+    # readable / writable lists to pop_used as the submission gave to add (C14.K3 shapes, K4 submission~completion siblings)
+    from . import C14 as _c14
+    if _c14.DRV in F.adts:
+        _ops = _c14.k2_k3_ops(F, RuleProxy(R, {'K3': 'P13'}, only=lambda inst: inst.endswith(':shape')), M, _roles)
+        _c14.k4_siblings(F, RuleProxy(R, {'K4': 'P13'}, only=lambda inst: '~' in inst), _ops)
     from .C16 import s4_custody
     s4_custody(F, R, M, _c5.classify_api(_c5.queue_api(F, M)), rule='P7', only=('receive', 'recycle_rx_buffer'))
 
